@@ -6,7 +6,7 @@ from . import common as K
 from .lexmodel import LexModel, base_of_member, arg_base, EOS_TESTS
 from . import lexpaths as LP
 
-CONFIGS_QUICK = ["A", "E"]
+CONFIGS_QUICK = ["A", "C", "E"]
 CONFIGS_THOROUGH = ["A", "B", "C", "D", "E"]
 
 EXPLANATION = (
@@ -41,6 +41,7 @@ RULES = {
     "C01-P1": "the unit detector consumes at least one byte of a non-empty input on every path",
     "C01-P2": "SCPI_Parse's unit loop advances by the detector's result and stops when the input is used up",
     "C01-P3": "SCPI_Input's scan loop makes progress on every path (consumed total grows or the buffer shrinks) and has an exit",
+    "C01-W": "write-bound obligations shared with C20 (static text heap, configuration C) and, in the thorough tier, with C14/C15/C18 (formatters, copies, error response)",
     "C01-U1": "ADVISORY: arguments of <ctype.h> classifiers are in the domain of unsigned char",
 }
 
@@ -696,6 +697,14 @@ def run(ck, fb, tier):
             rule_progress(ck, prog, S, model)
         if cfg in ("A", "E") or tier == "thorough":
             rule_u1(ck, prog, S)
+        if cfg == "C":
+            from . import c20
+            c20.rule_h1_h2(K.RuleProxy(ck, {"C20-H1": "C01-W", "C20-H1c": "C01-W", "C20-H2": None}), prog)
+        if cfg == "A" and tier == "thorough":
+            from . import boundsrules as BR
+            for name in ("SCPI_NumberToStr", "SCPI_FloatToStr", "SCPI_DoubleToStr", "SCPI_ParamCopyText",
+                         "UInt32ToStrBaseSign", "UInt64ToStrBaseSign", "channelSpec", "SCPI_ResultArbitraryBlockHeader"):
+                BR.check_function(K.RuleProxy(ck, {}, default="C01-W"), prog, "C01-W", name)
     ck.assume("lex_state_t objects are only built by the library (L5) from (pointer, length) pairs that describe readable memory")
     ck.trust("libc contracts of memcpy/memmove/strto*")
 
